@@ -178,6 +178,47 @@ func child(seed int64, g, calls int) {
 			same = 0
 		}
 	}
+	// copies and parts of one value are separate values: each goroutine gets its own, made by
+	// the library from a master nobody has queried yet, and asks its first questions at once
+	masters := []string{"/m/beauty.1-100x7#.exr", "/m/x.90-10x4@@.tif", "/m/y.1-20y3#.exr", "/m/z.-50--8x5#.exr"}
+	for round := 0; round < 2*len(masters); round++ {
+		txt := masters[round%len(masters)]
+		m, err := fileseq.NewFileSequence(txt)
+		if err != nil {
+			same = 0
+			break
+		}
+		copies := make([]*fileseq.FileSequence, g)
+		for i := range copies {
+			if i%2 == 0 {
+				copies[i] = m.Copy()
+			} else {
+				copies[i] = m.Split()[0]
+			}
+		}
+		ask := func(c *fileseq.FileSequence) string {
+			return fmt.Sprint(c.End(), c.Len(), c.Start(), c.Index(c.Len()-1), c.FrameRange(), c.FrameSet().HasFrame(c.End()))
+		}
+		res := make([]string, g)
+		start2 := make(chan struct{})
+		for i := 0; i < g; i++ {
+			wg.Add(1)
+			go func(i int) {
+				defer wg.Done()
+				<-start2
+				res[i] = ask(copies[i])
+			}(i)
+		}
+		close(start2)
+		wg.Wait()
+		fresh, _ := fileseq.NewFileSequence(txt)
+		want := ask(fresh)
+		for i := range res {
+			if res[i] != want {
+				same = 0
+			}
+		}
+	}
 	fmt.Printf("same=%d\n", same)
 }
 
